@@ -294,6 +294,14 @@ Definition fix_import (c : cfg) (st : store) : store :=
     fold_left (fun s h => fst (count_memo s (N.of_nat h))) (seq 0 (N.to_nat (size s2))) s2
   else s1.
 
+(** the repair step as the source has it: whether generate_var_dependencies starts from an empty table
+    ([g_fix_import_clears], regenerated from obdd.rs) or appends to whatever is there *)
+Definition clear_vd (st : store) : store :=
+  mkS (nodes st) (size st) (uniq st) (NM.empty (list N)) 0 (counts st) (itec st) (resc st) (outq st).
+Definition fix_import_x (clears : bool) (c : cfg) (st : store) : store :=
+  fix_import c (if clears then clear_vd st else st).
+Definition fix_import_cur (c : cfg) (st : store) : store := fix_import_x g_fix_import_clears c st.
+
 (** the node table as a list (what serde writes, what the web service stores) *)
 Definition table_of (st : store) : list node :=
   map (fun h => get_node st (N.of_nat h)) (seq 0 (N.to_nat (size st))).
